@@ -2,6 +2,10 @@
 -- proof and property module (the driver `sedriver` is a separate target).
 import SE.Util
 import SE.Props.C04
+import SE.Props.C05
+import SE.Props.C06
+import SE.Props.C07
+import SE.Props.C08
 import SE.Props.C09
 import SE.Props.C10
 import SE.Props.C11
@@ -10,6 +14,12 @@ import SE.Props.C13
 import SE.Props.C14
 import SE.Props.C15
 import SE.Props.C16
+import SE.Props.C17
+import SE.Props.C20
+import SE.Gen.TieLine
+import SE.Gen.TieMapper
+import SE.Gen.TieRegistry
+import SE.Gen.TieRelay
 import SE.Proofs.QueueDriver
 import SE.Model.Exporter
 import SE.Driver.Pipe
